@@ -1,5 +1,5 @@
 #!/venv/bin/python
-'''Regenerates the table of DESIGN.md 12.3 from evidence/tiers/*.json (written by every full run of a check).'''
+'''Regenerates the table of DESIGN.md 12.3 from sweep/tiers/*.json (written by every full run of a check).'''
 import glob
 import json
 import os
@@ -13,7 +13,7 @@ def k(n):
 
 def main():
     rows = {}
-    for f in glob.glob(os.path.join(ROOT, 'evidence', 'tiers', '*.json')):
+    for f in glob.glob(os.path.join(ROOT, 'sweep', 'tiers', '*.json')):
         d = json.load(open(f))
         rows.setdefault(d['property_id'], {})[d['tier']] = d
     print('| id | jobs (non-trivial) q / t | states / transitions quick | wall quick | states / transitions thorough | wall thorough | E2 / linear replays q / t | caps |')
